@@ -264,7 +264,9 @@ CHECKS = {
                        "archive, printer) x cancellation instant (before start, inside the n-th consumer callback, after a drawn delay, never) x "
                        "GOMAXPROCS; in one case of eight the signature lacks its last 1-3 block hashes (a signature file cut at a message boundary reads back without error), so the file worker fails. Oracles: Validate returns on the calling goroutine within the watchdog (a hang is confirmed by a second run "
                        "in a fresh process with a doubled deadline and goroutine stacks inside wharf); if fail-fast returns nil, an independent "
-                       "observer says the directory is identical to the signed build."),
+                       "observer says the directory is identical to the signed build; if a validation that heals from a complete archive returns nil, "
+                       "the directory observed afterwards is identical to the signed build, cancelled or not (one case in twelve: only the last "
+                       "file, of 300 KiB-8 MiB, is damaged, so the healer is still busy when the scan is over)."),
         "level_note": "interleavings are sampled; goroutines left inside wharf/pwr after return are counted in the evidence (coverage.extra), not judged.",
         "rule": ("rapid draws (tree, damages, consumer, cancellation, GOMAXPROCS). Non-trivial: a damaged directory validated with a cancelled "
                  "context or a consumer that failed. Distinct: SHA-1 of the spec."),
